@@ -260,6 +260,27 @@ def decoder_side(ctx, dec, msg, cell, surplus, trailer):
     return m
 
 
+def decoder_leading_bytes(ctx, dec, msg, cell):
+    """the message's bytes are the span from BUFR to 7777 - whatever PRECEDES the start signature as well"""
+    for lead, trail in ((b'\r\r\n', b''), (b'IUSK73 AMMC 182300\r\r\n', b'\r\r\n\x03'), (b'\x01', b'7777'), (b'BUF' + b'x' * 29, b'')):
+        spec = dict(side='decoder-leading', ids=msg.ids, edition=msg.edition, leading=lead.hex(), trailer=trail.hex(), cell=cell,
+                    hex=(lead + msg.bytes + trail).hex())
+        ctx.evaluated(('dec-leading', lead.hex(), trail.hex()) + tuple(cell), True)
+        ctx.count('dec_leading_bytes')
+        try:
+            m = dec.process(lead + msg.bytes + trail)
+        except Exception as e:
+            ctx.violate('dec/exception:%s/leading-bytes' % type(e).__name__, 'decoder raised %r on a message preceded by %r' % (e, lead), spec, exc=e)
+            continue
+        if m.serialized_bytes != msg.bytes:
+            ctx.violate('dec/serialized-bytes/leading-bytes', 'with %d bytes before BUFR serialized_bytes has %d bytes (ends %r), the message '
+                        'spans %d' % (len(lead), len(m.serialized_bytes or b''), (m.serialized_bytes or b'')[-4:], len(msg.bytes)), spec)
+            continue
+        d = diff_message(m, msg.subsets)
+        if d:
+            ctx.violate('dec/values-differ/leading-bytes', 'decoded %s differ with bytes before BUFR: %r' % (d[1], jsonable(d[2:])), spec)
+
+
 def decoder_wrong_total(ctx, dec, msg, cell):
     """the message's bytes are the span from BUFR to 7777 (what the sections occupy) whatever follows - also when the
     total-length field of section 0 does not agree with that span (the decoder does not use that field in a full decode)"""
@@ -390,6 +411,7 @@ def run(ctx):
                     decoder_side(ctx, dec, msg, cell, {}, tr)
                 decoder_short(ctx, dec, msg, cell)
                 decoder_wrong_total(ctx, dec, msg, cell)
+                decoder_leading_bytes(ctx, dec, msg, cell)
     # random richer messages (multi-subset, compressed, long section 2)
     k = 0
     quota = 150 if ctx.quick else 2500
